@@ -49,6 +49,7 @@ def verify(k, prop, cls=None, invariants=None, calls=None, hooks=None, extra_pre
     ex = Exec(spec)
     st = State()
     args = bind_params(k, st)
+    if cls and 'self' in args and isinstance(args['self'], ZV): args['self'].cls = cls      # proof instance: method calls on self resolve in this class
     for name, kind in k.closure.items():
         v = kind.fresh('c_' + name)
         if isinstance(v, PSeq): st.assume(v.n >= 0)
